@@ -13,6 +13,7 @@ which is what Rust's `Display for f64` does (trusted, and exercised by every cas
 correspondence run: a number printed in any other form makes the driver's parse fail).
 -/
 import ScadVerif.Lemmas.Parser
+import ScadVerif.Lemmas.Brace
 namespace ScadVerif.C01
 open ScadVerif ScadVerif.Spec ScadVerif.ParserLemmas
 
@@ -116,6 +117,18 @@ theorem block_iff_not_primitive (op : ScadOp ν) (cs : ScadList ν) (h : WellFor
   | none => rw [hop] at hh; simp at hh
   | some hd => cases hprim : op.isPrimitive <;> simp [toStmt, hop, hprim, Stmt.body]
 end
+
+/-- **C01, every opened block is closed.** The brace counter the oracle runs over the crate's text
+(`braceDepthOK`: never negative, zero at the end, braces inside string literals ignored) accepts
+the emitted text of every list of well-formed trees. -/
+theorem braces_balanced (hnum : ∀ x, IsNumeral (showNum x) = true) (ts : List (Scad ν))
+    (hwf : ∀ t ∈ ts, WellFormed showNum t) : braceDepthOK (emitAll showNum ts) = true := by
+  have := BraceLemmas.neutral_emitAll showNum ts (fun t ht => treeOK_of_wellFormed showNum hnum t (hwf t ht)) [] 0
+  rw [List.append_nil] at this
+  unfold braceDepthOK
+  rw [this, braceDepthOK.go]
+  simp
+
 
 /-! non-vacuity: a concrete tree over `Nat` (printed in decimal) meets the hypotheses, including an
 operator with no children and an empty point list -/
